@@ -153,6 +153,9 @@ func (n *RaftNode) FetchSnapshot(req *FetchSnapshotRequest, srv ClusterService_F
 }
 
 func (n *RaftNode) attemptToFetchSnapshot(lastSeqNum, lastAppliedVersion uint64) (io.ReadCloser, error) {
+	if r, err, ok := simFetch(n, lastSeqNum, lastAppliedVersion); ok {
+		return r, err
+	}
 	leaderAddr := string(n.raft.Leader())
 	conf, err := n.tlsConfigurator.OutgoingTLSConfig()
 	if err != nil {
